@@ -46,9 +46,20 @@ def run(c):
     rnd = random.Random(c.seed * 7919 + 44)
     for s in scns:
         s["mut"] = (4 if c.thorough else 1) if rnd.random() < 0.5 else 0
+    # the mutation corpus: every datagram class on its own server, dispatcher on and off, followed by K
+    # structure-aware mutants (truncation at layer boundaries, length / type fields, addresses, path, L4 header,
+    # splices, random strings); judged only on next hop, SCION destination of the mutant and panics
+    classes = {}
+    for s in scns:
+        for d in s["seq"]:
+            classes.setdefault(json.dumps(d, sort_keys=True), d)
+    k = 60 if c.thorough else 12
+    corpus = [{"on": on, "seq": [classes[key]], "mut": k} for key in sorted(classes) for on in (0, 1)]
+    scns = scns + corpus
+    c.notes.append("mutation corpus: %d classes x 2 modes x %d mutants" % (len(classes), k))
     nchunks = 8 if c.thorough else 4
     traces = []
-    for i, chunk in enumerate(_gw.deal(scns, nchunks, lambda s: len(s["seq"]))):
+    for i, chunk in enumerate(_gw.deal(scns, nchunks, lambda s: len(s["seq"]) + s.get("mut", 0))):
         f = "%s/scn-%d.ndjson" % (c.scratch, i)
         with open(f, "w") as fh:
             for s in chunk:
@@ -67,6 +78,7 @@ def account(c, traces, res):
     distinct = set()
     kinds = {"drop": 0, "fwd": 0, "reply": 0}
     muts = {}
+    ops = {}
     samples = {}
     for t in traces:
         with open(t) as f:
@@ -78,6 +90,7 @@ def account(c, traces, res):
                 evs += 1
                 if ev["ev"] == "mut":
                     muts[ev["k"]] = muts.get(ev["k"], 0) + 1
+                    ops[ev["op"]] = ops.get(ev["op"], 0) + 1
                     continue
                 kinds[ev["k"]] = kinds.get(ev["k"], 0) + 1
                 if ev["k"] != "drop":
@@ -95,7 +108,7 @@ def account(c, traces, res):
                      "replied; distinct = distinct abstract datagrams among those")
     for s in samples.values():
         c.sample(s)
-    c.notes.append("decisions: %s; byte-level mutants: %s" % (kinds, muts))
+    c.notes.append("decisions: %s; byte-level mutants: %s by operator %s" % (kinds, muts, ops))
     if drift:
         c.notes.append("drift: %s" % drift)
     # the statement is an only-if: guard against vacuity
